@@ -16,6 +16,11 @@ CHECKS = {
    note='Continuation canonicaliser validated differentially (not proved); text symbols outside the alphabet assumed to behave like "a"; codes outside 1xx-5xx and bare "250<CRLF>" are undefined by the property and accepted either way.',
    technique='exhaustive enumeration of replies/malformed inputs x all segmentations (continuation-merged re-execution) against a reference parser',
    design='5/C17'),
+ 'C09': dict(level='model_checking', engine='E2-seq',
+   text='912 session byte streams generated exhaustively from a grammar (1-2 transactions, 6 body shapes incl. command-looking content, lone dots and bodies over SIZE, RSET/NOOP, QUIT/EOF, SIZE on/off) are run through the real Server.handle; quick explores ALL segmentations of the 48 single-transaction streams (state graph by continuation-merged re-execution) and burst/byte/line/every-single-cut for the rest, thorough ALL segmentations of every stream.  Oracle: exactly one (replies, callback trace incl. content) per stream, equal to an independent reference parse of the byte stream.',
+   note='State = one recv() call keyed by (bytes consumed, output, canonicalised continuation frames); the canonicaliser is validated differentially on every 16th merged hit (traces_validated_against_impl) and a failure falls back to cut-bounded enumeration. Sizes between SIZE and SIZE+slack are not generated.',
+   technique='explicit-state model checking of the real server over all segmentations of grammar-generated streams (continuation-merged re-execution) with a reference session automaton',
+   design='5/C09'),
 }
 
 def main():
